@@ -44,6 +44,8 @@ class CobaRandom:
             seed = int.from_bytes(str(time.time() if seed is None else seed).encode('utf-8'),"big") % 2**20
 
         self._seed  = seed
+        self._s     = seed #the current state of the uniform generator
+        self._g     = None #the second gaussian of a Box-Muller pair while it is waiting to be returned
         self._randu = self._next_uniform(116646453,seed,9,2**30)
         self._randg = self._next_gaussian()
 
@@ -227,10 +229,10 @@ class CobaRandom:
         while True:
             #when m is a power of 2
             #this is equal to modulo m
-            s = (a * s + c) & (m_1)
+            self._s = s = (a * s + c) & (m_1)
             yield s/m
 
-    def _next_gaussian(self) -> Iterable[float]:
+    def _next_gaussian(self, waiting: float = None) -> Iterable[float]:
         """Generate `n` gaussian random numbers in N(0,1).
 
         Random numbers are generated using the Box-Muller transform.
@@ -242,15 +244,27 @@ class CobaRandom:
         cos  = math.cos
         sin  = math.sin
 
+        if waiting is not None:
+            self._g = None
+            yield waiting
+
         while True:
             #the uniform can be exactly 0 (where log is undefined) so draw again if it is
             R = sqrt(-2*log(next(self._randu) or next(self._randu)))
             S = 2*pi*next(self._randu)
+            self._g = R*sin(S)
             yield R*cos(S)
+            self._g = None
             yield R*sin(S)
 
     def __reduce__(self):
-        return (CobaRandom,(self._seed,))
+        #a copy continues the stream where the original is (not where it started)
+        return (CobaRandom,(self._seed,),(self._s,self._g))
+
+    def __setstate__(self, state) -> None:
+        self._s, self._g = state
+        self._randu = self._next_uniform(116646453,self._s,9,2**30)
+        self._randg = self._next_gaussian(self._g)
 
 _random = CobaRandom()
 
